@@ -221,11 +221,21 @@ def case_cli(run, i):
         seen["res"] = res.data.copy()
     import cnvlib.fix as FX
     w = rt.attach(FX, "do_fix", name="fix.do_fix[cli-result]", post=grab)
+    from ..monitors import cli_plumb
+    frac = [None, 0.05, 0.2][i % 3]
+    if frac is not None:
+        flags += ["--smoothing-window-fraction", repr(frac)]
     try:
-        args = commands.parse_args(["fix", pt, pa, pr, "-o", po] + flags)
-        args.func(args)
-    except Exception as exc:
-        run.extra[f"cli-raised:{type(exc).__name__}"] += 1
+        r = cli_plumb.check_cli(run, rt, FX, "do_fix", ["fix", pt, pa, pr, "-o", po] + flags,
+                                dict(do_gc="--no-gc" not in flags, do_edge="--no-edge" not in flags, do_rmask="--no-rmask" not in flags, do_cluster=False,
+                                     smoothing_window_fraction=frac, diploid_parx_genome=None), "fix")
+        if r is not None:
+            got = r[0]
+            n_in = (len(got["target_raw"]), len(got["antitarget_raw"]), len(got["reference"]))
+            if n_in != (len(tgt), len(anti), len(ref)):
+                run.violate("cli.fix[plumbing]", "fix-cli-passes-wrong-tables", f"tables of {n_in} rows reached do_fix, the files hold {(len(tgt), len(anti), len(ref))}", r[2])
+            else:
+                cli_plumb.held(run, "fix", "cli-fix")
     finally:
         FX.do_fix = w.__vmon_orig__
     mon = "cli.fix[file]"
@@ -250,5 +260,5 @@ def case_cli(run, i):
 WORKLOADS = {"fix": (_n, case_fix), "cli": (_n_cli, case_cli)}
 _Q = {"fix.do_fix|held": 150, "fix.match_ref_to_sample|held": 250, "fix.center_by_window|held": 150, "fix.get_edge_bias|held": 60,
       "fix.do_fix[invariance]|held": 350, "class:perm:target": 100, "class:perm:antitarget": 60, "class:perm:reference": 100, "class:scale": 25,
-      "class:refusal:missing": 4, "class:refusal:duplicate": 4, "cli.fix[file]|held": 8}
+      "class:refusal:missing": 4, "class:refusal:duplicate": 4, "cli.fix[file]|held": 8, "cli.fix[plumbing]|held": 8}
 QUOTAS = {"quick": _Q, "thorough": {k: v * (8 if "cli" not in k else 6) for k, v in _Q.items()}}
